@@ -79,6 +79,11 @@ static std::vector<Bytes> real_addresses() {
                           "[1.2.3.4]", "[IPv6:::1]", "[IPv6:2001:db8::1:2]", "[255.0.0.1]", "EXAMPLE.NET", "Sub.COM"})
         v.push_back(Bytes("u@") + d);
     if (!T.idn_u.empty()) { v.push_back("u@x." + T.idn_u[0]); v.push_back("u@x." + T.idn_a[0]); }
+    // IDNA full-stop look-alikes as the only separators, fullwidth spellings of reserved names, an upper-case A-label TLD
+    for (const char *d : {"iana\xE3\x80\x82org", "\xD0\xBF\xD0\xBE\xD1\x87\xD1\x82\xD0\xB0\xE3\x80\x82\xD1\x80\xD1\x84", "mail\xEF\xBC\x8Eru", "a\xEF\xBD\xA1" "b\xEF\xBD\xA1" "com",
+                          "mail.\xEF\xBD\x8C\xEF\xBD\x8F\xEF\xBD\x83\xEF\xBD\x81\xEF\xBD\x8C\xEF\xBD\x88\xEF\xBD\x8F\xEF\xBD\x93\xEF\xBD\x94", "\xEF\xBD\x85\xEF\xBD\x98\xEF\xBD\x81\xEF\xBD\x8D\xEF\xBD\x90\xEF\xBD\x8C\xEF\xBD\x85.com",
+                          "Example.COM", "www.eXample.Org", "x.XN--P1AI", "4.3.2.1.in-addr.arpa"})
+        v.push_back(Bytes("u@") + d);
     return v;
 }
 
